@@ -40,6 +40,7 @@ def run(run):
     run.require('enum.order_probes', 4)
     run.require('map.partial_row_patches', 5)
     run.require('record.equal_pairs', 50)
+    run.require('record.equal_but_printed_differently', 10)
     run.require('vector.ops', 500)
     if run.shard == 0:
         run.require('alias.roundtrips', 20)
@@ -619,8 +620,28 @@ def records(run, thorough):
         slots = list(cls._all_slots())
         v1 = {s: value() for s in slots}
         r1 = cls(**v1)
-        mode = rng.randrange(5)
-        if mode == 4:
+        mode = rng.randrange(6)
+        if mode == 5:
+            # equal field by field although the fields print differently
+            # (1 == 1.0 == True, 0 == 0.0 == False, equal nested records)
+            def alias(v):
+                if isinstance(v, tuple):
+                    return tuple(alias(x) for x in v)
+                if isinstance(v, bool):
+                    return int(v)
+                if isinstance(v, int):
+                    return float(v)
+                if isinstance(v, float) and v == v and v in (0.0, 1.0):
+                    return bool(v)
+                if isinstance(v, Rec1):
+                    return Rec1(a=alias(v.a), b=alias(v.b))
+                return v
+            v2 = {s_: alias(v1[s_]) for s_ in slots}
+            r2 = cls(**v2)
+            expect_eq = all(v1[s_] == v2[s_] for s_ in slots)
+            run.count('record.equal_but_printed_differently',
+                      int(expect_eq and repr(v1) != repr(v2)))
+        elif mode == 4:
             # another way of coming by an equal record: a copy
             import copy as _copy
             try:
